@@ -5,11 +5,12 @@ import Frp.Model.Str
 
     server/service.go   handleConnection, RegisterControl, RegisterWorkConn, RegisterVisitorConn
     server/control.go   ControlManager.Add/Del/GetByID, NewControl, handlePing, handleNewProxy (name table only),
-                        Control.RegisterWorkConn (bounded pool), worker (session end)
+                        Control.RegisterWorkConn (bounded pool), GetWorkConn (head of the pool), worker (session end)
     pkg/auth/token.go   VerifyLogin / VerifyPing / VerifyNewWorkConn
     pkg/auth/oidc.go    NewTokenVerifier (the oidc.Config it builds), OidcAuthConsumer (subjectsFromLogin)
     go-oidc/v3 verify.go IDTokenVerifier.Verify: the claim-level decision (issuer, audience, expiry / nbf);
                         parsing and the signature check are abstract
+    go-oidc/v3 jwks.go  RemoteKeySet.verify (cached keys first, refetch on a miss): `Idp`, `sigOkAt`, `cacheAfterSig`
     pkg/auth/pass.go    AlwaysPassVerifier
     pkg/util/util/util.go GetAuthKey  (abstract `Prim.H`)
     pkg/ssh/gateway.go  NewGateway (NoClientAuth, PublicKeyCallback, loadAuthorizedKeysFromFile)
@@ -332,6 +333,20 @@ def handleNewProxy (srv : Srv) (conn : ConnId) (name : Str) : Srv × Out :=
 def sessionEnd (srv : Srv) (conn : ConnId) : Srv × Out :=
   ({ srv with sessions := srv.sessions.filter (fun s => s.ctl ≠ conn) }, { reply := .none, closed := true })
 
+/-- the session whose `ctl.proxies` holds `name` (names are unique across sessions: `pxyManager.Add`) -/
+def proxyOwner (srv : Srv) (name : Str) : Option Session := srv.sessions.find? (fun s => decide (name ∈ s.proxies))
+
+/-- a user connection arrives at the listener of proxy `name`: server/proxy `GetWorkConnFromPool` →
+    `Control.GetWorkConn` takes the HEAD of the owning session's pool and writes `StartWorkConn` on it.
+    `none`: no such proxy, or the pool is empty (`ReqWorkConn` to the client, then `userConnTimeout`). -/
+def takeWork (srv : Srv) (name : Str) : Srv × Option ConnId :=
+  match proxyOwner srv name with
+  | none => (srv, none)
+  | some s =>
+    match s.pool with
+    | [] => (srv, none)
+    | c :: _ => (updSession srv s.runId (fun x => { x with pool := x.pool.drop 1 }), some c)
+
 /-! ### histories -/
 
 inductive Ev
@@ -339,6 +354,7 @@ inductive Ev
   | ping (conn : ConnId) (m : Ping)
   | newProxy (conn : ConnId) (name : Str)
   | drop (conn : ConnId)
+  | user (name : Str)                          -- a user connection to the listener of proxy `name`
   deriving DecidableEq, Repr
 
 def stepG (fixed : Bool) (P : Plugins) (pr : Prim) (cfg : Cfg) (srv : Srv) : Ev → Srv × Out
@@ -346,6 +362,7 @@ def stepG (fixed : Bool) (P : Plugins) (pr : Prim) (cfg : Cfg) (srv : Srv) : Ev 
   | .ping c m => handlePing P pr cfg srv c m
   | .newProxy c n => handleNewProxy srv c n
   | .drop c => sessionEnd srv c
+  | .user n => ((takeWork srv n).1, { reply := .none, closed := (takeWork srv n).2.isNone })
 
 def step := stepG workVerifierIsFixed
 
@@ -353,6 +370,110 @@ def runG (fixed : Bool) (P : Plugins) (pr : Prim) (cfg : Cfg) (srv : Srv) (evs :
   evs.foldl (fun s e => (stepG fixed P pr cfg s e).1) srv
 
 def run := runG workVerifierIsFixed
+
+/-! ### time and the provider's key set
+
+  Nothing in frps remembers a verdict: every Login / Ping / NewWorkConn hands its key to `verifier.Verify` again, and
+  go-oidc decides with `time.Now()` and with the keys it has AT THAT MOMENT.  What go-oidc does keep is the key
+  set: coreos/go-oidc v3 jwks.go `RemoteKeySet.verify` tries the cached keys (`cachedKeys`) whose kid matches and
+  only when none verifies fetches `jwks_uri` again, replaces the cache by the answer and tries those.  So the
+  answer for one and the same token changes when its `exp` passes, when `nbf` comes within the leeway, and when
+  the provider stops publishing the signing key AND the cache has been refreshed since.
+
+  `PrimT` is the time-independent part of `Prim`; `Idp` is what varies: the clock, the JWKS document the provider
+  serves now (`none`: the request fails) and the verifier's cached keys.  `primAt` assembles the `Prim` of that
+  moment, so every statement proved for all `Prim` holds at every moment. -/
+
+/-- one published verification key (kid + key material) -/
+abbrev Jwk := Nat
+
+structure PrimT where
+  H : Str → Int → Key
+  jwtClaims : Key → Option Claims
+  jwsOk : Key → Bool            -- `jose.ParseSigned(key, [RS256])` succeeds with exactly one signature
+  sigBy : Key → Jwk → Bool      -- the token's kid is empty or that of the JWK, and `jws.Verify(jwk)` succeeds
+
+structure Idp where
+  now   : Int
+  jwks  : Option (List Jwk)     -- what GET jwks_uri answers now
+  cache : List Jwk              -- RemoteKeySet.cachedKeys
+  deriving DecidableEq, Repr
+
+/-- `jose.ParseSigned` + `RemoteKeySet.verify` -/
+def sigOkAt (pt : PrimT) (w : Idp) (key : Key) : Bool :=
+  pt.jwsOk key &&
+    (w.cache.any (pt.sigBy key) ||
+      match w.jwks with
+      | some ks => ks.any (pt.sigBy key)
+      | none => false)
+
+def primAt (pt : PrimT) (w : Idp) : Prim :=
+  { H := pt.H, jwtClaims := pt.jwtClaims, jwtSigOk := sigOkAt pt w, now := w.now }
+
+/-- `RemoteKeySet.verify`: the cache afterwards (a hit leaves it; a miss replaces it by the fetched document;
+    a failed fetch leaves it) -/
+def cacheAfterSig (pt : PrimT) (w : Idp) (key : Key) : List Jwk :=
+  if w.cache.any (pt.sigBy key) then w.cache
+  else match w.jwks with
+    | some ks => ks
+    | none => w.cache
+
+/-- `IDTokenVerifier.Verify`: the signature is looked at only after parsing and the claim checks passed -/
+def cacheAfterVerify (pt : PrimT) (oc : OidcCfg) (w : Idp) (key : Key) : List Jwk :=
+  match pt.jwtClaims key with
+  | none => w.cache
+  | some c =>
+    if issOk oc c && audOk oc c && timeOk oc w.now c && pt.jwsOk key then cacheAfterSig pt w key else w.cache
+
+/-- the key (if any) an event makes frps hand to the OIDC verifier: a login judged by the configured verifier, a
+    ping / work connection when the scope is on and the verifier in charge is the configured one (`VerifyPing` /
+    `VerifyNewWorkConn` return before `Verify` when the scope is off) -/
+def verifiedKey (fixed : Bool) (P : Plugins) (cfg : Cfg) (srv : Srv) : Ev → Option Key
+  | .first i _ (.login m) =>
+    match P.login m with
+    | some m' => if cfg.method = .oidc ∧ verifierFor i m' = .cfg then some m'.key else none
+    | none => none
+  | .first i _ (.work m) =>
+    match lookup srv m.runId with
+    | none => none
+    | some s =>
+      match P.work m with
+      | some m' => if cfg.method = .oidc ∧ workVerifier fixed i s = .cfg ∧ cfg.wc = true then some m'.key else none
+      | none => none
+  | .ping c m =>
+    match byCtl srv c with
+    | none => none
+    | some s =>
+      match P.ping m with
+      | some m' => if cfg.method = .oidc ∧ s.vk = .cfg ∧ cfg.hb = true then some m'.key else none
+      | none => none
+  | _ => none
+
+/-- what the world looks like when a message arrives -/
+structure Moment where
+  now  : Int
+  jwks : Option (List Jwk)
+  deriving DecidableEq, Repr
+
+/-- frps + its verifier's key cache -/
+structure TSrv where
+  srv   : Srv
+  cache : List Jwk
+  deriving DecidableEq, Repr
+
+def Moment.idp (mo : Moment) (cache : List Jwk) : Idp := { now := mo.now, jwks := mo.jwks, cache := cache }
+
+def stepT (fixed : Bool) (P : Plugins) (pt : PrimT) (cfg : Cfg) (st : TSrv) (mo : Moment) (e : Ev) : TSrv × Out :=
+  let w := mo.idp st.cache
+  let r := stepG fixed P (primAt pt w) cfg st.srv e
+  ({ srv := r.1,
+     cache := match verifiedKey fixed P cfg st.srv e with
+       | some k => cacheAfterVerify pt cfg.oidc w k
+       | none => st.cache }, r.2)
+
+/-- a history in which every message arrives at its own moment -/
+def runT (fixed : Bool) (P : Plugins) (pt : PrimT) (cfg : Cfg) (st : TSrv) (evs : List (Moment × Ev)) : TSrv :=
+  evs.foldl (fun s me => (stepT fixed P pt cfg s me.1 me.2).1) st
 
 /-! ### the ssh tunnel gateway: the only code that feeds the internal listener
 
@@ -459,6 +580,7 @@ inductive NetEv
   | ping (conn : ConnId) (m : Ping)
   | newProxy (conn : ConnId) (name : Str)
   | drop (conn : ConnId)
+  | user (name : Str)
   deriving DecidableEq, Repr
 
 def NetEv.toEv : NetEv → Ev
@@ -466,6 +588,7 @@ def NetEv.toEv : NetEv → Ev
   | .ping c m => .ping c m
   | .newProxy c n => .newProxy c n
   | .drop c => .drop c
+  | .user n => .user n
 
 /-- everything that happens to a frps with the gateway enabled -/
 inductive SysEv
